@@ -72,7 +72,7 @@ class PathCtx:
         self.assume(f, name)
 
     def facts(self):
-        return list(self.hyps) + [c for c, _ in self.pc]
+        return list(self.hyps) + [e[0] for e in self.pc]
 
     # -- feasibility
     def feasible(self, cond):
@@ -81,7 +81,7 @@ class PathCtx:
             self._solver.set("timeout", 400)
             for h in self.hyps:
                 self._solver.add(h)
-            for c, _ in self.pc:
+            for c in [e[0] for e in self.pc]:
                 self._solver.add(c)
         self._solver.push()
         self._solver.add(cond)
@@ -186,6 +186,8 @@ def to_z3(x):
     """python number / SV / SB -> z3 arithmetic term"""
     if isinstance(x, SV):
         return x.t
+    if z3.is_expr(x) and not z3.is_bool(x):
+        return x
     if isinstance(x, SB):
         return z3.If(x.t, z3.IntVal(1), z3.IntVal(0))
     if isinstance(x, bool):
